@@ -885,13 +885,24 @@ fn run_c20(ctx: &mut Ctx) {
             }
         }
     }
+    let mut rendered: Vec<u32> = Vec::new();
     for x in 0..=0xffffu32 {
         if !ctx.mine() {
             continue;
         }
+        rendered.push(x);
         ctx.states += 1;
         ctx.transitions += 1;
         let desc = || json!({"kind":"render","x":x});
+        ctx.case(&desc, |ctx| check_render(ctx, x as u16));
+    }
+    // second pass over the same numbers in descending order: every number is rendered again after
+    // thousands of others (a rendering that is only right the first time, or only until enough
+    // other numbers have been rendered, shows here; reproduced by replaying the worker's history)
+    for x in rendered.into_iter().rev() {
+        ctx.states += 1;
+        ctx.transitions += 1;
+        let desc = || json!({"kind":"render","x":x,"pass":2});
         ctx.case(&desc, |ctx| check_render(ctx, x as u16));
     }
 }
